@@ -11,7 +11,8 @@
 From Coq Require Import String.
 From Coq Require Import List ZArith NArith Bool Lia Arith.
 From Tele Require Import Lib.Bytes Lib.FS Model.Span Model.Uploader
-  Proofs.FSFacts Proofs.UploaderBase Proofs.UploaderLock Proofs.UploaderNames Proofs.UploaderDisp.
+  Proofs.FSFacts Proofs.UploaderBase Proofs.UploaderLock Proofs.UploaderNames Proofs.UploaderDisp
+  Proofs.UploaderLive.
 Import ListNotations.
 Open Scope nat_scope.
 
@@ -140,6 +141,29 @@ Theorem C08_posted_verbatim_kept : forall f a t e t',
   t_buf t' = t_buf t /\ t_file t' = t_file t.
 Proof. exact buf_kept. Qed.
 Print Assumptions C08_posted_verbatim_kept.
+
+(* ---- eventual_once (no kills): the history starts from a directory with an
+        empty upload/ (so markers = acknowledgements, no stale lock).  In ANY
+        state st of it in which all runs have returned, let g be a report in
+        local/ that an uploader with configuration c (mode on) would upload
+        (collected by findWork, not future-dated, name long enough to carry the
+        week W).  Start one more uploader c and let the threads run under ANY
+        schedule without kills in which every request is answered 200: when
+        the new run has returned, W is acknowledged exactly once in the whole
+        log.  (No proviso about earlier 4xx answers is needed: after a 4xx the
+        report is gone, and a report that is still there is delivered.) ---- *)
+Theorem C08_eventual_once :
+  forall (c : ucfg) (g W : bytes), u_on c = true ->
+  collect_ready c g = true -> in_future (today c) g = false -> fdate g = Some W ->
+  forall (f : FS) (cfgs : list ucfg) (st : state),
+  fs_wf f -> up_dir f = [] -> reach_from (init_state f cfgs) st ->
+  (forall j t, nth_error (s_ths st) j = Some t -> t_pc t = Done) ->
+  d_mem (f_local (s_fs st)) g = true ->
+  forall sched, Forall (fun ia => good (snd ia)) sched ->
+  forall t, nth_error (s_ths (run sched (spawn st c))) (length (s_ths st)) = Some t -> t_pc t = Done ->
+  count200 W (s_log (run sched (spawn st c))) = 1.
+Proof. exact eventual_once. Qed.
+Print Assumptions C08_eventual_once.
 
 (* ---- non-vacuity: concrete runs of the model ---- *)
 Definition ex_week : bytes := s2b "2024-01-07"%string.
